@@ -40,6 +40,7 @@ func runC16(c *Ctx) {
 	R.Rule("R-client-parse", "E4 + who-may-call", "the verdict Close returns is the server's reply converted by readResponse/toSMTPErr: code, enhanced code and the text with the per-line code repetitions removed", 4)
 	ruleClientParse(c)
 	ruleClientDeadlinesPaired(c)
+	ruleNoCommandWhileDataOpen(c)
 	ruleEnhDefault(c) // every line of the verdict carries the same (possibly defaulted) enhanced code
 
 	R.Rule("R-data-writer", "E4 value flow", "Data/LMTPData return a dataCloser around c.text.DotWriter() obtained on the nil-error edge of the DATA command expecting 354", 4)
@@ -137,6 +138,7 @@ func runC16(c *Ctx) {
 	}
 
 	ruleLMTPLoopComplete(c)
+	ruleLMTPFlag(c)
 
 	R.Rule("R-sendmail-envelope", "E4+E2", "Client.SendMail: from -> Mail, every element of to in slice order -> Rcpt, body copied to the data writer, Close's result returned; an error ends the sequence", 6)
 	if f := c.A.Func("(*Client).SendMail"); f != nil {
@@ -262,4 +264,28 @@ func ruleClientDeadlinesPaired(c *Ctx) {
 		}
 	}
 	R.Ob("client/armed deadlines found", "-", n >= 3, fmt.Sprintf("%d armed deadlines found in the client", n))
+}
+
+// ruleNoCommandWhileDataOpen (C07, C16): net/textproto closes an open dot-writer implicitly when the next command line
+// is printed — and closing it writes the end-of-data marker. A package function that has obtained the DATA writer
+// must therefore not send a command before it has closed the writer itself: on the path where copying the message
+// failed, a "clean-up" RSET/QUIT would terminate the truncated body with <CRLF>.<CRLF> and the server would deliver
+// half a message as complete (while the caller is told the submission failed).
+func ruleNoCommandWhileDataOpen(c *Ctx) {
+	R := c.R
+	R.Rule("R-no-command-while-data-open", "E2 never-after", "after Client.Data/LMTPData returned a writer, no package function sends a command (directly or through a helper) before that writer's Close", 1)
+	n := 0
+	for _, f := range c.P.AllFuncs() {
+		if !inSmtp(f) {
+			continue
+		}
+		for _, dataFn := range []string{"(*Client).Data", "(*Client).LMTPData"} {
+			lbl := "call:" + dataFn
+			H := dataFn + "(param0)#1 == nil"
+			n += c.obNever("no command while the DATA writer is open", f,
+				func(in ssa.Instruction) bool { return labelHas(c.stdLabels(in), lbl) },
+				[]string{"ccmd"}, []string{"icall:iface:(io.WriteCloser).Close"}, c.F.SkipUnder(H))
+		}
+	}
+	R.Ob("package/users of the DATA writer found", "-", n >= 1, "no package function obtains the DATA writer")
 }
